@@ -1,6 +1,7 @@
 package codec
 
 import (
+	"reflect"
 	"bytes"
 	"crypto/sha256"
 	"encoding/hex"
@@ -44,8 +45,26 @@ type c20Plan struct {
 	Prefix     []int    `json:"history_prefix"` // jobs the history child runs first (results discarded)
 }
 
+// c20PlainVersion is an application's own structure that carries a protocol version as plain data (no set-version
+// option) followed by a field restricted to 1.4 and later: without a header of its own nothing sets the encoder's
+// version, so every populated field is written. Its fields have the same Go types and options as fields of the
+// library's own structures - apart from set-version.
+type c20PlainVersion struct {
+	ProtocolVersion kmip.ProtocolVersion
+	IVLength        int32 `ttlv:",omitempty,version=v1.4.."`
+}
+
+var c20RegisterOnce sync.Once
+
+func c20Register() {
+	c20RegisterOnce.Do(func() { ttlv.RegisterTag("VerifPlainVersion", 0x540140, reflect.TypeFor[c20PlainVersion]()) })
+}
+
 func c20Fresh(kind string) any {
+	c20Register()
 	switch kind {
+	case "plainversion":
+		return &c20PlainVersion{}
 	case "request", "failing":
 		return &kmip.RequestMessage{}
 	case "response":
@@ -356,7 +375,7 @@ func tail(s string) string {
 
 func TestC20History(t *testing.T) {
 	const name = "TestC20History"
-	rec := evid.New("C20", name, "work lists of 2..14 encode/decode jobs (requests and responses of versions 1.0..1.4 and, one in five, of a foreign version 0.x/2.x/3.x, generic values, header-less typed values - CryptographicParameters with later-version fields - of mixed versions, and jobs whose calls fail: a request made unencodable by a negative interval, truncated documents) executed by three fresh child processes of the test binary: sequentially (reference), "+
+	rec := evid.New("C20", name, "work lists of 2..14 encode/decode jobs (requests and responses of versions 1.0..1.4 and, one in five, of a foreign version 0.x/2.x/3.x, generic values, an application structure that carries a protocol version as plain data, header-less typed values - CryptographicParameters with later-version fields - of mixed versions, and jobs whose calls fail: a request made unencodable by a negative interval, truncated documents) executed by three fresh child processes of the test binary: sequentially (reference), "+
 		"concurrently from a cold start with G in {2,8,32} goroutines released together in a drawn permutation, and on one reused, cleared encoder per encoding after a drawn prefix of unrelated jobs and in reverse order; "+
 		"oracle: per-job digest of the four encodings and of the binary re-encoding after the XML and JSON round trips is identical across the children, every child's binary encoding equals the one the reference encoder predicts for the value alone, and in every child the XML and JSON documents of a typed message decode back to that binary encoding; the race-built variant additionally fails on any reported data race; "+
 		"non-trivial = the list holds messages of at least two different protocol versions or two different kinds; distinct by plan").Attach(t)
@@ -384,7 +403,9 @@ func TestC20History(t *testing.T) {
 		failing := 0
 		// half of the lists concentrate on one or two operations (those carrying managed objects first): many messages
 		// then share their cached per-type plans while their dynamic content (object types, attribute values) differs
-		mo := gen.MsgOpts{Alphabet: "xml", TextSafe: true, MaxItems: 2}
+		// in half of the lists the messages keep fields of later versions populated (the reference encoder gates them,
+		// as C05 checks in isolation): a version that leaks from one message into another then changes bytes
+		mo := gen.MsgOpts{Alphabet: "xml", TextSafe: true, MaxItems: 2, AllowGated: rapid.Bool().Draw(rt, "allowgated")}
 		focus := "none"
 		if rapid.Bool().Draw(rt, "focus") {
 			pool := []kmip.Operation{kmip.OperationRegister, kmip.OperationGet, kmip.OperationImport, kmip.OperationExport, kmip.OperationRegister, kmip.OperationGet}
@@ -396,7 +417,14 @@ func TestC20History(t *testing.T) {
 		}
 		for i := 0; i < n; i++ {
 			var j c20Job
-			switch rapid.IntRange(0, 5).Draw(rt, "kind") {
+			switch rapid.IntRange(0, 6).Draw(rt, "kind") {
+			case 6:
+				// an application structure sharing field types with the headers (see c20PlainVersion)
+				minor := rapid.IntRange(0, 4).Draw(rt, "plainminor")
+				tr := &ttlvref.Node{Tag: 0x540140, Type: ttlvref.Structure, Kids: []*ttlvref.Node{
+					{Tag: 0x420069, Type: ttlvref.Structure, Kids: []*ttlvref.Node{{Tag: 0x42006A, Type: ttlvref.Integer, I: 1}, {Tag: 0x42006B, Type: ttlvref.Integer, I: int64(minor)}}},
+					{Tag: 0x4200CD, Type: ttlvref.Integer, I: int64(rapid.IntRange(1, 64).Draw(rt, "ivlen"))}}}
+				j = c20Job{Kind: "plainversion", Hex: hex.EncodeToString(ttlvref.Write(tr)), Expect: hex.EncodeToString(ttlvref.Write(tr))}
 			case 5:
 				m := gen.Request(rt, mo)
 				w := &refwalk.Walker{}
